@@ -314,6 +314,7 @@ func (d *concDrv) tableAll() []map[string]any {
 
 func (d *concDrv) run(ri int, r concRun) error {
 	d.vers = nil
+	d.verBase = (ri * 5) % 44
 	d.theta, d.tol = d.cp.Theta, d.cp.Tol
 	d.tols = map[int]bool{d.tol: true}
 	base, err := os.MkdirTemp("", "vfconc")
